@@ -7,6 +7,15 @@
 #include <kernel/lafem/sparse_matrix_cscr.hpp>
 #include <kernel/lafem/sparse_matrix_banded.hpp>
 #include <kernel/lafem/dense_matrix.hpp>
+#include <kernel/lafem/power_row_matrix.hpp>
+#include <kernel/lafem/power_col_matrix.hpp>
+#include <kernel/lafem/power_full_matrix.hpp>
+#include <kernel/lafem/power_diag_matrix.hpp>
+#include <kernel/lafem/tuple_matrix.hpp>
+#include <kernel/lafem/tuple_diag_matrix.hpp>
+#include <kernel/lafem/saddle_point_matrix.hpp>
+#include <kernel/lafem/power_vector.hpp>
+#include <kernel/lafem/tuple_vector.hpp>
 using namespace FEAT; using namespace vh;
 
 static int g_maxdim = 2, g_maxnnz = 3;
@@ -234,6 +243,108 @@ void run_csrsb()
     }
 }
 
+
+// ------------------------------------------------------------------ meta matrices (recursive block dispatch)
+template<typename DT> LAFEM::SparseMatrixCSR<DT, Index> blk(const std::string& nm, Index r, Index c, int variant, Dense<DT>& D)
+{
+  // variant 0: full block; 1: first row empty, rest full; 2: diagonal-ish
+  Pattern p(r);
+  for(Index i = 0; i < r; ++i) for(Index j = 0; j < c; ++j) { bool on = (variant == 0) || (variant == 1 && i > 0) || (variant == 2 && (j == i % c)); if(on) p[i].push_back(j); }
+  return make_csr<DT, Index>(r, c, p, nm, &D);
+}
+template<typename DT> void put(Dense<DT>& G, Index r0, Index c0, const Dense<DT>& B) { for(size_t i = 0; i < B.size(); ++i) for(size_t j = 0; j < B[i].size(); ++j) G[r0 + i][c0 + j] = B[i][j]; }
+
+// FLAT: 0 = typed vectors only, 1 = also the flat DenseVector overloads, 2 = flat overloads for the non-transposed product only
+template<typename DT, int FLAT, bool T_AXPY = true, typename MT>
+void meta_cases(const std::string& name, const MT& A, const Dense<DT>& D)
+{
+  typedef typename MT::VectorTypeL VL; typedef typename MT::VectorTypeR VR;
+  Index rows = Index(D.size()), cols = Index(D[0].size());
+  auto fillv = [&](auto& v, Index n, const std::string& nm, double base, double step) { std::vector<DT> f; for(Index i = 0; i < n; ++i) f.push_back(H<DT>::var(nm + str(i), base + step * double(i) * ((i % 2) ? -1.0 : 1.0))); f.push_back(DT(0)); v.set_vec_inv(f.data()); f.pop_back(); return f; };
+  auto flatv = [&](const auto& v, Index n) { std::vector<DT> f(n + 1, DT(0)); v.set_vec(f.data()); f.resize(n); return f; };
+  for(int tr = 0; tr < 2; ++tr) for(int form = 0; form < 3; ++form) for(int flat = 0; flat < (FLAT ? 2 : 1); ++flat) // form 0: r=Ax, 1: r=y+aAx, 2: same with r==y
+  {
+    std::string cn = "meta " + name + (tr ? " T" : " N") + " form" + str(Index(form)) + (flat ? " flat-vectors" : " typed-vectors");
+    if(!H<DT>::want(cn)) continue;
+    H<DT>::begin(cn, "{\"format\":\"" + name + "\"}");
+    Index nr = tr ? cols : rows, nx = tr ? rows : cols; DT alpha = H<DT>::var("alpha", 0.75);
+    std::vector<DT> xb, yb, got; int rc = 0;
+    if(flat && FLAT == 2 && tr) { H<DT>::end(); continue; }
+    if(flat)
+    {
+      if constexpr(FLAT != 0) {
+      LAFEM::DenseVector<DT, Index> x(nx), y(nr), rr(nr); xb = fillv(x, nx, "x", 0.5, 0.375); yb = fillv(y, nr, "y", -0.25, 0.625); fillv(rr, nr, "rjunk", 7.0, 1.0);
+      auto& r = (form == 2) ? y : rr;
+      rc = guarded([&] { if(!tr) { if(form == 0) A.apply(r, x); else A.apply(r, x, y, alpha); } else { if constexpr(FLAT == 1) { if(form == 0) A.apply_transposed(r, x); else A.apply_transposed(r, x, y, alpha); } } });
+      if(rc == 0) { got = flatv(r, nr); auto xa = flatv(x, nx); unchanged<DT>("x", xb, xa); }
+      }
+    }
+    else if(!tr)
+    {
+      VL y = A.create_vector_l(), rr = A.create_vector_l(); VR x = A.create_vector_r(); xb = fillv(x, nx, "x", 0.5, 0.375); yb = fillv(y, nr, "y", -0.25, 0.625); fillv(rr, nr, "rjunk", 7.0, 1.0);
+      VL& r = (form == 2) ? y : rr;
+      rc = guarded([&] { if(form == 0) A.apply(r, x); else A.apply(r, x, y, alpha); });
+      if(rc == 0) { got = flatv(r, nr); unchanged<DT>("x", xb, flatv(x, nx)); }
+    }
+    else
+    {
+      VR y = A.create_vector_r(), rr = A.create_vector_r(); VL x = A.create_vector_l(); xb = fillv(x, nx, "x", 0.5, 0.375); yb = fillv(y, nr, "y", -0.25, 0.625); fillv(rr, nr, "rjunk", 7.0, 1.0);
+      VR& r = (form == 2) ? y : rr;
+      if(!T_AXPY) { H<DT>::end(); continue; }
+      rc = guarded([&] { if constexpr(T_AXPY) { if(form == 0) A.apply_transposed(r, x); else A.apply_transposed(r, x, y, alpha); } });
+      if(rc == 0) { got = flatv(r, nr); unchanged<DT>("x", xb, flatv(x, nx)); }
+    }
+    H<DT>::fact("completes on valid input", rc == 0, rc == 2 ? "memory fault" : "XASSERT/XABORT reached");
+    if(rc == 0) expect<DT>("r", got, D, tr != 0, xb, form == 0 ? nullptr : &yb, alpha);
+    H<DT>::end();
+  }
+}
+
+template<typename DT>
+void run_meta()
+{
+  typedef LAFEM::SparseMatrixCSR<DT, Index> CSR;
+  for(int v = 0; v < 3; ++v)
+  {
+    std::string vs = " v" + str(Index(v));
+    { // (A1 A2): 2x3 and 2x1
+      LAFEM::PowerRowMatrix<CSR, 2> M; Dense<DT> D1, D2; M.template at<0, 0>() = blk<DT>("a", 2, 3, v, D1); M.template at<0, 1>() = blk<DT>("b", 2, 1, (v + 1) % 3, D2);
+      Dense<DT> G = dense_zero<DT>(2, 4); put(G, 0, 0, D1); put(G, 0, 3, D2); meta_cases<DT, 1>("power-row<csr,2> 2x(3+1)" + vs, M, G);
+    }
+    { // (A1; A2): 3x2 and 1x2
+      LAFEM::PowerColMatrix<CSR, 2> M; Dense<DT> D1, D2; M.template at<0, 0>() = blk<DT>("a", 3, 2, v, D1); M.template at<1, 0>() = blk<DT>("b", 1, 2, (v + 1) % 3, D2);
+      Dense<DT> G = dense_zero<DT>(4, 2); put(G, 0, 0, D1); put(G, 3, 0, D2); meta_cases<DT, 1>("power-col<csr,2> (3+1)x2" + vs, M, G);
+    }
+    { // diag(A1, A2): 2x3, 1x2
+      LAFEM::PowerDiagMatrix<CSR, 2> M; Dense<DT> D1, D2; M.template at<0, 0>() = blk<DT>("a", 2, 3, v, D1); M.template at<1, 1>() = blk<DT>("b", 1, 2, (v + 2) % 3, D2);
+      Dense<DT> G = dense_zero<DT>(3, 5); put(G, 0, 0, D1); put(G, 2, 3, D2); meta_cases<DT, 1>("power-diag<csr,2> 2x3,1x2" + vs, M, G);
+    }
+    { // full 2x2 of blocks: rows (2,1), cols (3,2)
+      LAFEM::PowerFullMatrix<CSR, 2, 2> M; Dense<DT> D[4]; Index rs[2] = {2, 1}, cs[2] = {3, 2};
+      M.template at<0, 0>() = blk<DT>("a", rs[0], cs[0], v, D[0]); M.template at<0, 1>() = blk<DT>("b", rs[0], cs[1], (v + 1) % 3, D[1]);
+      M.template at<1, 0>() = blk<DT>("c", rs[1], cs[0], (v + 2) % 3, D[2]); M.template at<1, 1>() = blk<DT>("d", rs[1], cs[1], v, D[3]);
+      Dense<DT> G = dense_zero<DT>(3, 5); put(G, 0, 0, D[0]); put(G, 0, 3, D[1]); put(G, 2, 0, D[2]); put(G, 2, 3, D[3]); meta_cases<DT, 1>("power-full<csr,2,2>" + vs, M, G);
+    }
+    { // saddle point: A 3x3, B 3x2, D 2x3
+      LAFEM::SaddlePointMatrix<CSR, CSR, CSR> M; Dense<DT> DA, DB, DD; M.block_a() = blk<DT>("a", 3, 3, v, DA); M.block_b() = blk<DT>("b", 3, 2, (v + 1) % 3, DB); M.block_d() = blk<DT>("d", 2, 3, (v + 2) % 3, DD);
+      Dense<DT> G = dense_zero<DT>(5, 5); put(G, 0, 0, DA); put(G, 0, 3, DB); put(G, 3, 0, DD); // the flat apply_transposed overload of SaddlePointMatrix does not compile (calls block_b().applytransposed): not offered
+      meta_cases<DT, 2>("saddle-point<csr,csr,csr>" + vs, M, G);
+    }
+    { // tuple diag
+      LAFEM::TupleDiagMatrix<CSR, CSR> M; Dense<DT> D1, D2; M.template at<0, 0>() = blk<DT>("a", 2, 3, v, D1); M.template at<1, 1>() = blk<DT>("b", 1, 2, (v + 2) % 3, D2);
+      Dense<DT> G = dense_zero<DT>(3, 5); put(G, 0, 0, D1); put(G, 2, 3, D2); // flat overloads of TupleDiagMatrix do not compile for the one-element tail specialisation: not offered
+      meta_cases<DT, 0>("tuple-diag<csr,csr>" + vs, M, G);
+    }
+    { // tuple matrix 2x2
+      typedef LAFEM::TupleMatrix<LAFEM::TupleMatrixRow<CSR, CSR>, LAFEM::TupleMatrixRow<CSR, CSR>> TM; TM M; Dense<DT> D[4]; Index rs[2] = {2, 1}, cs[2] = {3, 2};
+      M.template at<0, 0>() = blk<DT>("a", rs[0], cs[0], v, D[0]); M.template at<0, 1>() = blk<DT>("b", rs[0], cs[1], (v + 1) % 3, D[1]);
+      M.template at<1, 0>() = blk<DT>("c", rs[1], cs[0], (v + 2) % 3, D[2]); M.template at<1, 1>() = blk<DT>("d", rs[1], cs[1], v, D[3]);
+      Dense<DT> G = dense_zero<DT>(3, 5); put(G, 0, 0, D[0]); put(G, 0, 3, D[1]); put(G, 2, 0, D[2]); put(G, 2, 3, D[3]); // apply_transposed of a multi-row TupleMatrix does not compile (tuple_matrix.hpp:1330 calls first().apply with transposed operand types): not offered
+      meta_cases<DT, 0, false>("tuple<2x2 csr>" + vs, M, G);
+    }
+  }
+}
+
 template<typename DT>
 void run_all(int argc, char** argv)
 {
@@ -242,6 +353,7 @@ void run_all(int argc, char** argv)
   run_bcsr<DT, 2, 2>(); run_bcsr<DT, 2, 3>(); run_bcsr<DT, 3, 2>();
   run_cscr<DT>(); run_banded<DT>(); run_dense<DT>();
   run_csrsb<DT, 2>(); run_csrsb<DT, 3>();
+  run_meta<DT>();
 }
 
 int main(int argc, char** argv)
